@@ -6,6 +6,7 @@ CONSTANTS
   SlotType <- MCSlotType4
   MaxExplicit = 2
   Policy <- PolicyAny
+  Layout = "multi"
   MemberTypes <- MembersNone
   MaxBirths = 2
 INVARIANTS TypeOK Conservation AliveIffReferenced NoDangling StaticTypes DestroyedExactlyOnce
